@@ -360,6 +360,7 @@ LEVEL_TEXT = ('Generated-input search: for each generated configuration the whol
               'No proof: configurations are sampled, sizes bounded (1-D <= 160, 2-D <= 20x20 '
               'for full operators).')
 LEVEL_TEXT += (' Also generated: wavelet given as name / object / tuple of arrays, lists or column arrays (rescaled banks included), separate row/column wavelets, modules with a past (load_state_dict, other-precision call), amplitudes 1e-18..1e10, autograd contexts (default / no_grad / inference_mode), occasional batches of 2-4 million samples.')
+LEVEL_TEXT += (' Round 10: a sibling module (other wavelet and mode) constructed and used between construction and use; custom pywt.Wavelet objects that share one name and differ in their banks.')
 LEVEL_NOTE = ('Trusts PyWavelets as reference and linearity of the transform (checked by C07) '
               'to extend basis agreement to all inputs; tolerances in DESIGN.md 2.4; open known '
               'finding KF-D1-analysis (short periodization) is classified, not hidden.')
